@@ -921,15 +921,23 @@ func ruleBinaryNodes(c *Ctx) *RuleResult {
 		if cl == nil || len(cl.Labels) == 0 {
 			continue
 		}
-		w, ok := want[cl.Labels[0].Name]
-		if !ok {
+		wantOf := func(label string) (string, bool) {
+			if w, ok := want[label]; ok {
+				return w, true
+			}
+			if specRank[label] == specRank["tEQ"] && specRank[label] > 0 {
+				return want["tEQ"], true
+			}
+			return "", false
+		}
+		if _, ok := wantOf(cl.Labels[0].Name); !ok {
 			continue
 		}
 		res := retResults(ret)
 		if sh := c.nodeShapeOf(res[0]); sh != nil && sh.Zero {
 			continue // error return
 		}
-		r.Instances++
+		r.Instances += len(cl.Labels)
 		key := fmt.Sprintf("led|%s|return@%s", cl.Name(), c.symStr(res[0], 0))
 		pos := c.pos(ret.Pos())
 		bns, ok := c.builtNodes(res[0])
@@ -941,10 +949,36 @@ func ruleBinaryNodes(c *Ctx) *RuleResult {
 		desc := ""
 		for _, bn := range bns {
 			sh := bn.shape
-			okType := false
-			for _, t := range strings.Split(w, "|") {
-				if sh.NodeType == t {
-					okType = true
+			// the node type, operator by operator (a type picked by an inner
+			// switch on the token is read under that token's label)
+			okType := true
+			for _, l := range cl.Labels {
+				w, has := wantOf(l.Name)
+				if !has {
+					okType = false
+					continue
+				}
+				got := []string{sh.NodeType}
+				if sh.NodeTypeVal != nil {
+					got = nil
+					if ks, ok := c.constsFor(sh.NodeTypeVal, []namedConst{l}); ok {
+						for _, k := range ks {
+							got = append(got, c.A.NTName[k])
+						}
+					} else {
+						okType = false
+					}
+				}
+				for _, g := range got {
+					hit := false
+					for _, t := range strings.Split(w, "|") {
+						if g == t {
+							hit = true
+						}
+					}
+					if !hit {
+						okType = false
+					}
 				}
 			}
 			// children: first is the left parameter (or, for flatten, a flatten node over it), second a parse result
@@ -953,6 +987,9 @@ func ruleBinaryNodes(c *Ctx) *RuleResult {
 				okKids = c.valueIsParam(c.builtChild(bn, 0), nodeParam, cl.Labels[0].Name == "tFlatten") && c.valueIsParseResult(c.builtChild(bn, 1))
 			}
 			desc = sh.String()
+			if len(sh.NodeTypeAlts) > 1 {
+				desc = strings.Join(sh.NodeTypeAlts, "/") + " by operator, " + desc
+			}
 			if !(okType && okKids) {
 				bad = fmt.Sprintf("the %s handler returns %s (type ok=%v, children (left, right) ok=%v)", cl.Name(), sh, okType, okKids)
 			}
